@@ -1323,7 +1323,35 @@ func c03LayerTerm(b *c03Build, i int, vals map[string]bool, pairs map[[2]string]
 		}
 		items = append(items, "IGen "+t)
 	}
-	return fmt.Sprintf("(Layer %s %s %s [%s])", coqStr(l.Namespace), coqStr(l.Prefix), coqStr(l.Suffix), strings.Join(items, "; ")), true
+	// the patch entries: one selection (flags over the accumulated resources, in order) per entry
+	ids := c03LayerIDs(b, i)
+	var touches []string
+	for _, p := range l.Patches {
+		flags := make([]string, len(ids))
+		for k, id := range ids {
+			flags[k] = coqBool(id == p.ID)
+		}
+		touches = append(touches, "["+strings.Join(flags, "; ")+"]")
+	}
+	return fmt.Sprintf("(Layer %s %s %s [%s] [%s])", coqStr(l.Namespace), coqStr(l.Prefix), coqStr(l.Suffix),
+		strings.Join(touches, "; "), strings.Join(items, "; ")), true
+}
+
+// c03LayerIDs: the resources kustomization i accumulates, in accumulation order (entries, bases flattened, then
+// the generated ones) - the order of the items of c03LayerTerm.
+func c03LayerIDs(b *c03Build, i int) []string {
+	l := b.Layers[i]
+	var ids []string
+	for _, e := range l.Entries {
+		if strings.HasPrefix(e, "res:") {
+			ids = append(ids, e[4:])
+		} else {
+			var j int
+			fmt.Sscanf(e, "dir:%d", &j)
+			ids = append(ids, c03LayerIDs(b, j)...)
+		}
+	}
+	return append(ids, l.Gens...)
 }
 
 // ---------------------------------------------------------------- running a build
@@ -1896,17 +1924,7 @@ func c03Cases(r *Run, b *c03Build, o c03Outcome) {
 	}
 	st := o.stages
 	// ---- CBook: layering -> identity + history before FixBackReferences
-	patched := false
-	for _, l := range b.Layers {
-		if len(l.Patches) > 0 {
-			patched = true
-		}
-	}
-	if patched {
-		// PatchTransformer is outside the rename model (it also calls StorePreviousId on every target, which
-		// records the current id once more): such builds are judged by the CRef case and the laws only
-		r.Count("case", "book:not-modelled(patches)")
-	} else if st.Stage == "" || st.Stage == "accumulate" || st.Stage == "hash" || st.Stage == "nameref" {
+	if st.Stage == "" || st.Stage == "accumulate" || st.Stage == "hash" || st.Stage == "nameref" {
 		vals := map[string]bool{}
 		pairs := map[[2]string]bool{}
 		lt, ok := c03LayerTerm(b, 0, vals, pairs)
